@@ -1,2 +1,82 @@
-(* placeholder *)
-From LV Require Import Policy.Model.
+(* C09 — property theorems (statements only; proofs in Proofs.v). *)
+From Coq Require Import ZArith List.
+From LV Require Import Policy.Model Policy.Proofs.
+Local Open Scope Z_scope.
+
+(* On the realistic domain D the Go arithmetic (uint64/int64/uint32 with
+   wrap) takes exactly the decision of the unbounded rule, for forwards and
+   for locally initiated sends, including failure code, detail and carried
+   value. *)
+Theorem C09_machine_eq_spec :
+  forall e h, D e h ->
+    check_forward_m e h = check_forward_s e h /\
+    check_transit_m e h = check_transit_s e h.
+Proof. exact machine_eq_spec. Qed.
+
+(* Accept only if: out <= in; in - out covers base + proportional + signed
+   inbound fee; min <= out <= max (0 = no max; shaper-custom HTLCs exempt);
+   height + rejectDelta < out_expiry <= height + maxCltv; the traffic shaper
+   answered; out <= bandwidth; delta <= in_expiry - out_expiry <= maxCltv. *)
+Theorem C09_sound :
+  forall e h, D e h -> r_wire (check_forward_m e h) = WOk -> forward_clauses e h.
+Proof. exact sound. Qed.
+
+Theorem C09_complete :
+  forall e h, D e h -> forward_clauses e h -> check_forward_m e h = ok_result.
+Proof. exact complete. Qed.
+
+(* Every rejection names a rule that is violated (and carries the right
+   amount / expiry); TemporaryNodeFailure only for a shaper error or when
+   the channel update is unavailable while an update-carrying rule is
+   violated. *)
+Theorem C09_failure_names_violated_rule :
+  forall e h, D e h -> r_wire (check_forward_m e h) <> WOk ->
+    names_violated_forward e h (check_forward_m e h).
+Proof. exact failure_names_violated_rule. Qed.
+
+(* CheckHtlcTransit: the same for locally initiated payments. *)
+Theorem C09_transit_sound_complete :
+  forall e h, D e h ->
+    (r_wire (check_transit_m e h) = WOk <->
+     send_clauses e (out_amt h) (out_exp h) (height h)) /\
+    (r_wire (check_transit_m e h) = WOk -> check_transit_m e h = ok_result) /\
+    (r_wire (check_transit_m e h) <> WOk ->
+     names_violated_send e (out_amt h) (out_exp h) (height h) (check_transit_m e h)).
+Proof. exact transit_sound_complete. Qed.
+
+(* D is needed: with well-formed (in-range) inputs outside D the uint32
+   additions wrap and the verdict flips in both directions. *)
+Theorem C09_wrap_refuted_outside :
+  (exists e h, wf e h /\ r_wire (check_forward_m e h) = WOk /\ ~ forward_clauses e h) /\
+  (exists e h, wf e h /\ forward_clauses e h /\ r_wire (check_forward_m e h) <> WOk).
+Proof.
+  split.
+  - exists w_env, w_accept. exact (proj1 wrap_refuted_outside).
+  - exists w_env, w_reject. destruct (proj2 wrap_refuted_outside) as (H1 & H2 & H3).
+    split; [exact H1 | split; [exact H2 | rewrite H3; discriminate]].
+Qed.
+
+(* ... and so does the int64 product in InboundFee.CalcFee once
+   |rate| * amount reaches 2^63 (rate clamp 10^7, amount 9.3 BTC). *)
+Theorem C09_fee_wrap_refuted_outside :
+  exists e h, wf e h /\ r_wire (check_forward_m e h) = WOk /\ ~ fee_covered e h.
+Proof.
+  exists wf_env, wf_htlc. destruct fee_wrap_refuted_outside as (H1 & H2 & _ & H4).
+  split; [exact H1 | split; [exact H2 | exact H4]].
+Qed.
+
+(* Switch.handlePacketAdd: the link chosen for the forward is one of the
+   candidate links, eligible, and its check returned nil; the add fails iff
+   no candidate is eligible with a nil check. *)
+Theorem C09_switch_picks_only_ok :
+  forall (link : Type) (eligible : link -> bool) (check : link -> result)
+         (pick : nat -> nat) (ls : list link),
+    (forall l, choose link eligible check pick ls = Some l ->
+       In l ls /\ eligible l = true /\ r_wire (check l) = WOk) /\
+    (destinations link eligible check ls = nil <->
+     forall l, In l ls -> eligible l = false \/ r_wire (check l) <> WOk).
+Proof.
+  intros. split.
+  - intros l. apply switch_picks_only_ok.
+  - apply switch_fails_iff_no_link_ok.
+Qed.
